@@ -7,6 +7,20 @@ COMMON_ASSUME = [
 ]
 
 PROPS = {
+    "C17": {
+        "stages": [{"bin": "err"}],
+        "rule": "decision table written from the statement: for every fallible public routine (7 single-input summary statistics + entropy on f64/f32/i32; min/max/argmin/argmax; 8 weighted routines; 10 deviation measures on f64 and i64; kl_divergence / cross_entropy; 5 quantile entry points on i32/N64/f64; pearson_correlation; cov; 5 strategies + GridBuilder) x first-input shapes {(4), (2,3), (3,1,2), (1), (0), (0,3), (3,0), (0,0), (2,0,3)} (+9 more in thorough) x second argument {same shape, same element count other shape, broadcast-compatible, one axis longer, different rank} in two layouts / per-axis weights of right and wrong length on every axis x q lists {valid, single, empty list, one < 0, one > 1, several invalid (first offending one carried), invalid on an empty axis, 1+2^-52, -0.0, +inf} x 3 layouts (8 thorough): expected cell in {Ok, EmptyInput, ShapeMismatch(first, second), InvalidQuantile(q)} or unconstrained (observed and counted, never judged: empty first input AND mismatching second argument for the sum-type routines; cov with zero observations and ddof >= 0; constant data for strategies; a zero-column matrix for GridBuilder). The table is enumerated completely; each cell is one distinct case (counted exactly); a panic in a constrained cell is a violation; weighted_sum / weighted_sum_axis of empty inputs must be zero.",
+        "exhaustive": True,
+        "exhaustive_bound": {"quick": "the full table for 9 first-input shapes x 3 layouts", "thorough": "18 first-input shapes x 8 layouts"},
+        "assumptions": COMMON_ASSUME + ["combinations the statement does not decide are reported as unconstrained, not judged"],
+    },
+    "C20": {
+        "stages": [{"kind": "oracle", "bin": "layout"}],
+        "quick_profiles": ["release"],
+        "rule": "differential monitor between the canonical representation (owned, C order, dynamic dimension) and a zoo variant of a logically equal array: layout = random axis permutation x per-axis step in {1,2,3} x direction x padding inside a guarded parent buffer; representation in {view_mut, owned-sliced, ArcArray with a second live handle (which must stay unchanged), CowArray borrowed (the lender must stay unchanged), CowArray owned, static-dimension view (Ix1..Ix3), owned-sliced as dynamic}. Routines: quantile(s)_axis_mut (5 strategies), quantile(s)_mut, get_from_sorted_mut, get_many_from_sorted_mut, partition_mut, min, max, argmin, argmax (index must designate an element equal to the canonical extremum), min/max/argmin/argmax_skipnan, fold / indexed_fold / fold_axis / map_axis_skipnan_mut, quantile_axis_skipnan_mut on i32, i64, u8, N64, f64, Option<i32>: results BIT-IDENTICAL; all 10 deviation measures, mean, weighted_sum, weighted_mean, weighted_sum_axis on i64 with BOTH operands varied independently: identical; histogram counts and GridBuilder<Sqrt|Auto> grids for every observation-matrix layout: identical; float statistics (mean, harmonic/geometric mean, central moment(s), skewness, kurtosis, entropy, weighted sum/mean/var/std, sq_l2/l1/linf, cross-entropy, KL, cov, pearson): both results logged and each judged offline against the exact value with the section-4 bounds (so |A-B| <= 2 tol). distinct = hash of (family, type, shape, layout(s), representation(s), data).",
+        "exhaustive": False,
+        "assumptions": COMMON_ASSUME + ["ties may legitimately resolve to different indices: index results are compared through the element they designate"],
+    },
     "C05": {
         "stages": [{"bin": "minmax"}],
         "rule": "linear-scan model on the logical snapshot: empty => EmptyInput; float data containing a NaN (any payload/sign, any position) => UndefinedOrder and only then; otherwise the value form returns an element <= (>=) every element, the index form returns an in-bounds index whose element equals the value form. Exhaustive part: ALL 1-D f64 arrays of length 0..6 (7 thorough) over {NaN, -inf, -0, +0, 1} in 3 layouts (each (array, layout) one distinct case, counted exactly; length >= 2 non-trivial). Random part: i32, u8, i64, f32, f64, N64; 0..4 dims incl. zero-length axes; zoo layouts; static (Ix0..Ix4), dynamic and owned-sliced arrays; NaN first/middle/last/several/all; ties, signed zeros, infinities, type extremes. distinct = hash of (type, shape, layout, mode, data bits).",
@@ -136,6 +150,18 @@ SANITIZER_STAGES = {}
 
 _EXPL = "exploration: the real code is executed and every execution is judged by an independent oracle; "
 MANIFEST_TEXT = {
+    "C17": {
+        "technique": "runtime monitoring: decision-table oracle (written from the statement) over the complete enumeration of routine x shape x second-argument x q-list x layout cells, each executed on the real code",
+        "level_text": _EXPL + "the table is finite and enumerated completely for the listed shapes; the observation is the Ok/Err variant and its payload.",
+        "level_note": "trusted: the table itself (err.rs), reviewed against the property statement and API docs",
+        "design_ref": "DESIGN.md section 3 C17",
+    },
+    "C20": {
+        "technique": "runtime monitoring: representation differential (canonical vs zoo variant, both executions of the real code), bit-exact for order-based/integer results, offline exact oracle for float sums; ownership side conditions (second ArcArray handle, CowArray lender) monitored",
+        "level_text": _EXPL + "every public routine family is driven through 7 representations and random zoo layouts.",
+        "level_note": "trusted: ndarray's conversions between ownership kinds; the harness's layout embedding (self-checked)",
+        "design_ref": "DESIGN.md section 3 C20",
+    },
     "C05": {
         "technique": "runtime monitoring: linear-scan reference model over executions of min/max/argmin/argmax, exhaustive for short arrays over a NaN/inf/signed-zero alphabet",
         "level_text": _EXPL + "complete for 1-D f64 arrays up to the length bound over the 5-value alphabet; seeded generation for n-D, layouts and other element types.",
